@@ -105,6 +105,13 @@ impl PublicInput {
         program_ok && output_ok
     }
 
+    // Returns the number of public memory cells: the main page and all continuous pages.
+    pub fn get_public_memory_length(&self) -> Felt {
+        self.continuous_page_headers
+            .iter()
+            .fold(Felt::from(self.main_page.len()), |acc, header| acc + header.size)
+    }
+
     // Returns the product of all public memory cells.
     pub fn get_public_memory_product(&self, z: Felt, alpha: Felt) -> (Felt, Felt) {
         let main_page_prod = self.main_page.get_product(z, alpha);
